@@ -247,6 +247,69 @@ def parseString (p : Parser) (src : Sources) (t : KV) : KV :=
 def parseObject (p : Parser) (src : Sources) (t : KV) : KV :=
   mergeConfig p (expand p t) (defaultsAndEnviron p src (envOn p))
 
+/-! ### the arguments of a parse call: `defaults=`, `env=`, `parse_env(env=mapping)` -/
+
+structure Call where
+  defaults : Bool := true                              -- `defaults=`
+  envArg : Option Bool := .none                        -- `env=` (`None`: the parser's `default_env`)
+  environ : Option (List (String × V)) := .none        -- the mapping given to `parse_env`; `None`: `os.environ` (= `Sources.env`)
+deriving Inhabited
+
+/-- `env or (env is None and self._default_env)` -/
+def envRead (p : Parser) (envArg : Option Bool) : Bool :=
+  match envArg with
+  | some b => b
+  | .none => envOn p
+
+/-- `if environ is None: environ = os.environ` — an EMPTY mapping stays the empty mapping -/
+def environOf (src : Sources) (c : Call) : List (String × V) :=
+  match c.environ with
+  | some m => m
+  | .none => src.env
+
+/-- `cfg = Namespace(); if defaults: cfg = self.get_defaults(...)` -/
+def baseCfg (p : Parser) (files : List (Option KV)) (defaults : Bool) : KV :=
+  if defaults then getDefaults p files else []
+
+/-- `_parse_defaults_and_environ(defaults, env, environ)` -/
+def defaultsAndEnvironC (p : Parser) (src : Sources) (c : Call) : KV :=
+  if envRead p c.envArg then mergeConfig p (loadEnv p (environOf src c)) (baseCfg p src.files c.defaults)
+  else baseCfg p src.files c.defaults
+
+def parseArgsC (p : Parser) (src : Sources) (c : Call) : KV :=
+  src.argv.foldl (argvStep p) (defaultsAndEnvironC p src c)
+/-- `parse_env(env=mapping, defaults=…)`: `_parse_defaults_and_environ(defaults, env=True, environ=mapping)` -/
+def parseEnvC (p : Parser) (src : Sources) (c : Call) : KV :=
+  defaultsAndEnvironC p src { c with envArg := some true }
+/-- `parse_string` / `parse_path`: the base is merged only `if defaults or env` (the ARGUMENT `env`, not `default_env`);
+    otherwise the loaded content is returned as it is, its `key+` entries unapplied -/
+def parseStringC (p : Parser) (src : Sources) (c : Call) (t : KV) : KV :=
+  if c.defaults || c.envArg == some true then mergeConfig p (expand p t) (defaultsAndEnvironC p src c)
+  else expand p t
+def parseObjectC (p : Parser) (src : Sources) (c : Call) (t : KV) : KV :=
+  mergeConfig p (expand p t) (defaultsAndEnvironC p src c)
+
+/-! ### `_get_default_config_files`: which default config files, in which order -/
+
+def insertSorted (le : String → String → Bool) (x : String) : List String → List String
+  | [] => [x]
+  | y :: r => if le x y then x :: y :: r else y :: insertSorted le x r
+/-- `sorted(...)` -/
+def sortBy (le : String → String → Bool) : List String → List String
+  | [] => []
+  | x :: r => insertSorted le x (sortBy le r)
+
+/-- for every entry of `default_config_files` IN THE LISTED ORDER: `sorted(glob.glob(pattern))`, appended; nothing is
+    deduplicated — a file matched by two entries is applied at both positions.  `glob` is the abstract match relation
+    (what `glob.glob` returns for an entry, in any order), `le` the order of `sorted` on paths -/
+def defaultConfigFiles (le : String → String → Bool) (glob : String → List String) (patterns : List String) : List String :=
+  patterns.flatMap (fun pat => sortBy le (glob pat))
+
+/-- the contents in that order (`content f = none`: an empty file) -/
+def resolveFiles (le : String → String → Bool) (glob : String → List String) (content : String → Option KV)
+    (patterns : List String) : List (Option KV) :=
+  (defaultConfigFiles le glob patterns).map content
+
 /-! ### acceptance (only what the correspondence needs: unknown options and unknown keys are errors) -/
 
 def kindOf (p : Parser) (k : Key) : Option Kind := (findArg p k).map (·.kind)
@@ -331,6 +394,12 @@ def asgBase (p : Parser) (src : Sources) (env : Bool) : List Assign :=
 def asgAll (p : Parser) (src : Sources) : List Assign :=
   asgBase p src (envOn p) ++ asgArgv p src.argv
 
+def asgBaseC (p : Parser) (src : Sources) (c : Call) : List Assign :=
+  (if c.defaults then asgDefaults p ++ asgFiles p src.files else []) ++
+  (if envRead p c.envArg then asgEnvCfg p (environOf src c) ++ asgEnvVars p (environOf src c) else [])
+
+def asgAllC (p : Parser) (src : Sources) (c : Call) : List Assign := asgBaseC p src c ++ asgArgv p src.argv
+
 /-! ### the reference, key by key: the value a key holds after a history of assignments -/
 
 def stepKey (k : Key) (cur : Option V) : Assign → Option V
@@ -397,6 +466,13 @@ def srcWf (p : Parser) (src : Sources) : Bool :=
     | some t => treeOk p (expand p t)
     | .none => true)
   && envWf p src.env && src.argv.all (itemWf p)
+
+/-- `srcWf` for a call: the environment that is read is the mapping of the call when one is given -/
+def srcWfC (p : Parser) (src : Sources) (c : Call) : Bool :=
+  src.files.all (fun f => match f with
+    | some t => treeOk p (expand p t)
+    | .none => true)
+  && envWf p (environOf src c) && src.argv.all (itemWf p)
 
 def Assign.isSet : Assign → Bool
   | .set _ _ => true
